@@ -21,6 +21,7 @@ def Mutation.target : Mutation → Option Observable
   | .alloc .. => none
   | .setField o n _ _ => some (.trait o n)
   | .read o n _ => some (.trait o n)
+  | .delField o n _ => some (.trait o n)
   | .addTrait o _ _ _ => some (.trait o nTraitAdded)
   | .announce o _ _ => some (.trait o nTraitAdded)
   | .listAppend c _ => some (.cont c)
@@ -130,6 +131,17 @@ theorem runCont_delivered (E : Env) (st : St) (h' : Heap) (c : Id) (ev : Option 
     · obtain ⟨a, b⟩ := deliverCont_observable k c ev
       exact ⟨a, by rw [b]; exact hk⟩
 
+/-- What the delete branch delivers: the events of its two announcements. -/
+theorem refire_delivered (E : Env) (r1 : Out) (o : Id) (n : Name) (cmp : Cmp) (old new : Val) (d : Delivered)
+    (hd : d ∈ (refire E r1 o n cmp old new).delivered) :
+    d ∈ r1.delivered ∨ d ∈ (fire E r1.st.H r1.st.h o n old new).delivered := by
+  unfold refire at hd
+  split at hd
+  · exact Or.inl hd
+  · split at hd
+    · simp only [List.mem_append] at hd; exact hd
+    · exact Or.inl hd
+
 /-- Every event a mutation delivers comes from a live notifier and names the
 observable that was mutated. -/
 theorem mutate_delivered (E : Env) (st : St) (m : Mutation) :
@@ -164,6 +176,18 @@ theorem mutate_delivered (E : Env) (st : St) (m : Mutation) :
       · split at hd
         · exact trait_case _ _ _ _ _ _ hd
         · simp at hd
+    · simp [skip] at hd
+  | delField o n fresh =>
+    simp only [mutate] at hd
+    simp only [Mutation.target, Option.some.injEq]
+    split at hd
+    · split at hd
+      · simp [skip] at hd
+      · split at hd
+        · simp at hd
+        · rcases refire_delivered E _ o n _ _ _ d hd with h1 | h2
+          · exact trait_case _ _ _ _ _ _ h1
+          · exact trait_case _ _ _ _ _ _ h2
     · simp [skip] at hd
   | addTrait o n tagged dflt =>
     simp only [mutate] at hd
@@ -395,6 +419,19 @@ theorem mutate_allDead (E : Env) (st : St) (m : Mutation) (hall : ∀ o, AllDead
       · split
         · rw [fire_allDead E st.H _ o n _ _ hall]; simp
         · simp
+    · simp [skip]
+  | delField o n fresh =>
+    simp only [mutate]
+    split
+    · split
+      · simp [skip]
+      · split
+        · simp
+        · rw [fire_allDead E st.H _ o n _ _ hall]
+          simp only [refire]
+          split
+          · rw [fire_allDead E st.H _ o n _ _ hall]; simp
+          · simp
     · simp [skip]
   | addTrait o n tagged dflt =>
     simp only [mutate]
